@@ -129,7 +129,20 @@ func (x *Exec) evalValue(fr *Frame, st *State, v ssa.Value, pred *ssa.BasicBlock
 		for _, b := range w.Bindings {
 			binds = append(binds, x.get(fr, st, b))
 		}
-		fr.env[v] = &FuncV{Fn: fn, Bind: binds, ID: x.funcID(fn)}
+		id := x.funcID(fn)
+		if len(binds) > 0 {
+			// a closure with captured variables is a distinct object; its code identity is ghost closfn
+			id = x.newRef(st)
+			k, arr := x.ghostLeaf(st, "closfn", SInt)
+			st.heap[k] = x.name(st, "closfn", Store(arr, id, x.funcID(fn)))
+			if len(binds) == 1 {
+				if b, ok := binds[0].(*FuncV); ok && b.Fn != nil {
+					k2, arr2 := x.ghostLeaf(st, "closbind0", SInt)
+					st.heap[k2] = x.name(st, "closbind0", Store(arr2, id, b.ID))
+				}
+			}
+		}
+		fr.env[v] = &FuncV{Fn: fn, Bind: binds, ID: id}
 	case *ssa.MakeChan:
 		fr.env[v] = &Prim{T: x.newRef(st)}
 	case *ssa.ChangeType:
